@@ -99,12 +99,47 @@ def build(pid, conf):
     return out
 
 
+# pd's test helpers create their data directories under a hard-coded /tmp (test_pd*, test_etcd*, ...), not under
+# TMPDIR. Where the kernel allows it every test process therefore runs in its own mount namespace with the run's
+# scratch directory bound over /tmp: nothing is left behind in /tmp, and nothing that tidies /tmp up while a run is
+# under way can pull the directories away from it. Without that permission (or with VERIF_NO_NS=1) processes run plainly.
+_NS = None
+
+
+def ns_prefix():
+    global _NS
+    if _NS is None:
+        _NS = False
+        if not os.environ.get("VERIF_NO_NS") and shutil.which("unshare") and "TMPDIR" in ENV:
+            try:
+                r = subprocess.run(["unshare", "-m", "bash", "-c", "mount --bind %s /tmp" % ENV["TMPDIR"]],
+                                   stdout=subprocess.DEVNULL, stderr=subprocess.DEVNULL, timeout=20)
+                _NS = r.returncode == 0
+            except Exception:
+                _NS = False
+    if _NS:
+        return "mount --bind %s /tmp && " % ENV["TMPDIR"]
+    return ""
+
+
+def ns_argv(shell_cmd):
+    pre = ns_prefix()
+    if pre:
+        return ["unshare", "-m", "bash", "-c", pre + shell_cmd]
+    return ["bash", "-c", shell_cmd]
+
+
+def sh_quote(a):
+    return "'" + a.replace("'", "'\\''") + "'"
+
+
 def run_bin(binp, args, extra_env, timeout, logpath):
     env = dict(ENV)
     env.update(extra_env)
     with open(logpath, "w") as lf:
         try:
-            p = subprocess.run([binp] + args, env=env, stdout=lf, stderr=subprocess.STDOUT,
+            p = subprocess.run(ns_argv("exec " + " ".join(sh_quote(a) for a in [binp] + args)), env=env, stdout=lf,
+                               stderr=subprocess.STDOUT,
                                timeout=timeout, cwd=os.path.join(BUILD, "run"))
             return p.returncode
         except subprocess.TimeoutExpired:
@@ -249,7 +284,7 @@ def main():
         lf = open(lp, "w")
         mem_kb = conf.get("mem_gb", 6) * 1024 * 1024
         cmd = "ulimit -v %d; exec %s -test.run '^TestProp' -test.timeout %ds" % (mem_kb * 4, binp, timeout)
-        p = subprocess.Popen(["bash", "-c", cmd], env=env, stdout=lf, stderr=subprocess.STDOUT,
+        p = subprocess.Popen(ns_argv(cmd), env=env, stdout=lf, stderr=subprocess.STDOUT,
                              cwd=os.path.join(BUILD, "run"))
         procs.append((k, p, lp, pfx))
     deadline = time.time() + timeout + 60
